@@ -1,7 +1,7 @@
 (* Case records and comparison functions for the generated correspondence files of property C16
    (harness/cmd/proftree).  Executable definitions only. *)
 From Coq Require Import List NArith ZArith Bool Uint63.
-From Qryn Require Import model.Pprof model.ProfTree model.ProfDiff model.ProfSql.
+From Qryn Require Import model.Pprof model.ProfTree model.ProfDiff model.ProfSql model.ProfMerge.
 Import ListNotations.
 
 (* ------------------------------------------------------------------ equality tests *)
@@ -240,6 +240,50 @@ Definition diff_spec (nest : bool) (d : dcase) : Z :=
                end) then 2%Z
       else 0%Z.
 
+(* ------------------------------------------------------------------ the pprof payload merge (ProfService.MergeProfiles) *)
+Record mpcase := {
+  mp_present : bool;
+  mp_canon : list Z;               (* name token -> the first token carrying the same name *)
+  (* observations *)
+  mp_err : Z;                      (* 0 none, 1 "incompatible sample types", 2 anything else (a panic included) *)
+  mp_types : list Z;               (* tokens of the merged profile's sample types *)
+  mp_samples : list msample }.     (* merged samples: stack as name tokens (leaf first, -1 = no line info), values *)
+
+Definition canon_tok (cn : list Z) (t : Z) : Z := if Z.ltb t 0 then t else nth (Z.to_nat t) cn t.
+(* the payloads MergeProfiles reads: one per profile that was parsed and stored *)
+Definition mp_inputs (cn : list Z) (profs : list prof) : list (list Z * list msample) :=
+  map (fun p => (pf_st p, map (fun s => {| mk_key := map (canon_tok cn) (ps_stack s); mk_vals := ps_values s |}) (pf_samples p)))
+      (filter (fun p => negb (pf_err p) && negb (pf_bad p)) profs).
+
+Definition tables_agree (a b : list msample) : bool :=
+  Nat.eqb (length a) (length b) &&
+  forallb (fun e => match lookup_key b (mk_key e) with Some v => list_eqb Z.eqb v (mk_vals e) | None => false end) a.
+
+Definition mp_mismatch (profs : list prof) (m : mpcase) : bool :=
+  if negb (mp_present m) then false
+  else match merge_profiles zlist_eqb (mp_inputs (mp_canon m) profs) with
+       | None => negb (Z.eqb (mp_err m) 1)
+       | Some (ty, tbl) =>
+           negb (Z.eqb (mp_err m) 0 &&
+                 list_eqb Z.eqb (mp_types m) (match ty with Some t => t | None => [] end) &&
+                 (* the observed samples, added up per stack of names, are the model's table *)
+                 tables_agree tbl (fold_left (table_add zlist_eqb) (mp_samples m) []))
+       end.
+
+(* spec oracle on the OBSERVED merged profile: for every sample type the values of the merged samples add up to the
+   values of all samples of the merged payloads (modulo 2^64); a refusal is right only for differing sample types *)
+Definition mp_spec (profs : list prof) (m : mpcase) : Z :=
+  if negb (mp_present m) then 0%Z
+  else let ins := mp_inputs (mp_canon m) profs in
+       let nonempty := filter (fun x => negb (is_nil (snd x))) ins in
+       let same := match nonempty with [] => true | x :: r => forallb (fun y => zlist_eqb (fst x) (fst y)) r end in
+       if Z.eqb (mp_err m) 1 then (if same then 2%Z else 0%Z)
+       else if negb (Z.eqb (mp_err m) 0) then 2%Z
+       else if forallb (fun k => Z.eqb (wrap64 (col_sum k (mp_samples m)))
+                                       (wrap64 (sumZ (map (fun x => col_sum k (snd x)) ins))))
+                       (seq 0 (length (mp_types m)))
+            then 0%Z else 2%Z.
+
 (* ------------------------------------------------------------------ whole cases *)
 Record case := {
   c_id : Z;
@@ -251,7 +295,8 @@ Record case := {
   c_grouped : bool;                (* the rows handed to MergeTrie were grouped (what the SQL returns) *)
   c_stmt : Z;                      (* index of the case's statement template in the run's table, -1 = none recorded *)
   c_mfrom : Z; c_mto : Z;          (* time window of the MergeStackTraces statement *)
-  c_diff : dcase }.
+  c_diff : dcase;
+  c_mp : mpcase }.
 
 Fixpoint index_of (x : Z) (l : list Z) (i : nat) : option nat :=
   match l with
@@ -265,7 +310,7 @@ Definition projected (c : case) : list row :=
 
 Definition case_mismatch (c : case) : bool :=
   existsb (prof_mismatch (c_fnh c)) (c_profs c) ||
-  merge_mismatch (c_merge c) || diff_mismatch (c_diff c).
+  merge_mismatch (c_merge c) || diff_mismatch (c_diff c) || mp_mismatch (c_profs c) (c_mp c).
 
 (* ------------------------------------------------------------------ judging the statements of the read path
    the database of a case: profile i was stored at timestamp i seconds with the rows the writer emitted *)
@@ -312,7 +357,7 @@ Definition case_spec (c : case) : Z :=
      (their precondition, distinct ids, fails for the merged tree; for the diff view the two sides pool the children of
      the shared id); everything else is still demanded *)
   let coll := c_e2e c && negb (tree_regular (mc_tree (c_merge c))) && dup_id_across_parents (mc_tree (c_merge c)) in
-  if existsb (Z.eqb 2) ps || Z.eqb m 2 || Z.eqb (diff_spec (negb coll) (c_diff c)) 2 then 2%Z
+  if existsb (Z.eqb 2) ps || Z.eqb m 2 || Z.eqb (diff_spec (negb coll) (c_diff c)) 2 || Z.eqb (mp_spec (c_profs c) (c_mp c)) 2 then 2%Z
   else if existsb (Z.eqb 3) ps then 3%Z
   else if coll then 4%Z
   else 0%Z.
@@ -384,11 +429,15 @@ Definition rd_dcase : R dcase :=
   ret {| dc_present := present; dc_lfrom := lfrom; dc_lto := lto; dc_rfrom := rfrom; dc_rto := rto;
          dc_lrows := lrows; dc_lfuncs := lfuncs; dc_rrows := rrows; dc_rfuncs := rfuncs; dc_err := err; dc_names := names;
          dc_levels := levels; dc_ticks := ticks; dc_maxself := maxself; dc_left := left; dc_right := right |}.
+Definition rd_mpcase : R mpcase :=
+  present <- rd_b ;; cn <- rd_list rd_z ;; err <- rd_z ;; types <- rd_list rd_z ;;
+  samples <- rd_list (k <- rd_list rd_z ;; v <- rd_list rd_z ;; ret {| mk_key := k; mk_vals := v |}) ;;
+  ret {| mp_present := present; mp_canon := cn; mp_err := err; mp_types := types; mp_samples := samples |}.
 Definition rd_case : R case :=
   id <- rd_z ;; e2e <- rd_b ;; fnh <- rd_list rd_u ;; profs <- rd_list rd_prof ;; sel <- rd_z ;; m <- rd_mcase ;;
-  grouped <- rd_b ;; stmt <- rd_z ;; mfrom <- rd_z ;; mto <- rd_z ;; d <- rd_dcase ;;
+  grouped <- rd_b ;; stmt <- rd_z ;; mfrom <- rd_z ;; mto <- rd_z ;; d <- rd_dcase ;; mp <- rd_mpcase ;;
   ret {| c_id := id; c_e2e := e2e; c_fnh := fnh; c_profs := profs; c_sel := sel; c_merge := m;
-         c_grouped := grouped; c_stmt := stmt; c_mfrom := mfrom; c_mto := mto; c_diff := d |}.
+         c_grouped := grouped; c_stmt := stmt; c_mfrom := mfrom; c_mto := mto; c_diff := d; c_mp := mp |}.
 Definition rd_hcase : R hcase :=
   id <- rd_z ;; a <- rd_u ;; b <- rd_u ;; h <- rd_u ;; ret {| h_id := id; h_a := a; h_b := b; h_h := h |}.
 
@@ -442,7 +491,7 @@ Definition all_results (stmts : list merge_stmt) (ws : list (list int))
     (* cases whose OBSERVED merged tree meets the hypotheses of levels_nest (so the nesting oracle applies) *)
     Z.of_nat (length (filter (fun c => tree_regular (mc_tree (c_merge c)) && negb (is_nil (mc_tree (c_merge c)))) cs))),
    map fst (filter (fun x => existsb (Z.eqb 2) (snd x)) hs),
-   (map c_id (filter (fun c => diff_mismatch (c_diff c)) cs),
+   (map c_id (filter (fun c => diff_mismatch (c_diff c) || mp_mismatch (c_profs c) (c_mp c)) cs),
     map fst (filter (fun x => Z.eqb (snd x) 2) js),
     Z.of_nat (length (filter (fun x => Z.eqb (snd x) 1) js)))).
 
